@@ -50,6 +50,9 @@ func main() {
 		ID:    "C20",
 		Level: "exploration",
 		Rule: "termination: every matrix of the lattices (1x1,2x2 over {-2..2}; 3x3, 3x2, 4x2 over {-1,0,1}; thorough adds 3x3 {-2..2}, symmetric 4x4, 4x3) plus all nilpotent {0,1} patterns, Jordan blocks, rank-one matrices, sizes 0/1 and one NaN/±Inf entry at every position, through every routine × termination-relevant option; " +
+			"sign/scale variants s·2^k·D·A·D (exact in float64; iterative routines, msqrt/msqrtInv on symmetric inputs only): −A, ±2^±40·A (thorough also 2^±100), ±D·A·D for every D=diag(±1) of the nilpotent and Jordan families; the scalings of the rank-one matrices (n<=3), of the 2x2 and 3x2 lattices and of the symmetric 3x3 lattice matrices (thorough: of all 3x3{-1,0,1} and 4x2 matrices and, 2^±40 only, of the symmetric 3x3{-2..2} matrices) — the lattices themselves are closed under A→−A and A→D·A·D; " +
+			"couplings below the rounding level, τ=2^-56 (thorough also 2^-52, 2^-64), at least one ±τ entry: all 2x2 over {0,±1,±2,±τ} with every scaling; symmetric 3x3 with diagonal over {-1,0,1}, off-diagonal over {0,±τ,1} (thorough, τ=2^-56: {-2..2}, {0,±τ,±1}); 3x3 with diagonal over {-1,0,1}, strict lower triangle over {0,±τ}, strict upper triangle all 0 or all 1 (thorough, τ=2^-56: every {0,1} pattern); the 3x3 ones also negated (thorough also ±2^±40); " +
+			"block compositions diag(B1..Bk) of total size 4 (thorough also 5 and 6 with at most 3 blocks) for every ordered choice of blocks, not all 1x1, from the catalogue (1x1: 0,1,-1,2; 2x2: both rotations, swap, J2(0), J2(1) upper and lower, ones, nilpotent rank-one, [1 -1;1 1]; 3x3: both 3-cycles, the transpositions, C3·diag(1,1,-1), C3·diag(2,1,1), J3(0), J3(1) upper and lower, ones; thorough 4x4: both 4-cycles, signed 4-cycle, two swaps, J4(0), J4(1), ones) × coupling of all off-diagonal blocks (none; all ones or a single entry next to the diagonal, above or below the diagonal), also negated (thorough: ±2^±40 and, for size 4, ±D·A·D); " +
 			"optimizers × start point × objective poison (NaN/±Inf value or value+gradient, error) from call k=1..5; non-trivial = input on which the routine can iterate (not 1x1/diagonal) resp. the poisoned answer was actually consumed. " +
 			"stalling configurations: newton.RunRoot/RunCrit/RunMin (× Hessian modification), bfgs, rprop, gradientDescent × objective (quadratic with exactly attained minimum, quartic with singular Hessian at the minimum, constant; roots of x-1, x²-1, x²-2, 0, circle∩line) × start points (7; thorough 11) × constraint (none, x0<=b, x0>=b for b in {0,1,2}, 4 boxes; thorough more) × epsilon (default, 1e-30, 0 with MaxIterations 50); non-trivial = feasible start and at least one iteration. " +
 			"loud failure: every operation × storage (dense/sparse) × 9 element types × every shape tuple from dims {0,1,2,3} / index from {-1,0,dim-1,dim,dim+1} / permutation array; non-trivial = the call is non-conforming (must fail) or conforming with a non-empty result (value compared with the model)",
